@@ -122,6 +122,7 @@ class Gen:
                 pw = uc[0]["password"]
             elif cfg.password:
                 pw = cfg.password
+            uname = nick if (uc or self.rng.random() < 0.7) else nick + "U"
             if pw is not None and self.rng.random() < 0.9:
                 self.t.line(cid, "PASS " + pw)
             if self.rng.random() < 0.2:
@@ -129,15 +130,15 @@ class Gen:
                 if self.rng.random() < 0.7:
                     self.t.line(cid, "CAP REQ :multi-prefix")
                 self.t.line(cid, "NICK " + nick)
-                self.t.line(cid, "USER %s 8 * :Real %s" % (nick, nick))
+                self.t.line(cid, "USER %s 8 * :Real %s" % (uname, nick))
                 self.t.line(cid, "CAP END")
             elif self.rng.random() < 0.3:
                 # USER first: both orders are legal and must yield the same identity
-                self.t.line(cid, "USER %s 8 * :Real %s" % (nick, nick))
+                self.t.line(cid, "USER %s 8 * :Real %s" % (uname, nick))
                 self.t.line(cid, "NICK " + nick)
             else:
                 self.t.line(cid, "NICK " + nick)
-                self.t.line(cid, "USER %s 8 * :Real %s" % (nick, nick))
+                self.t.line(cid, "USER %s 8 * :Real %s" % (uname, nick))
             self.conns[cid].update(nick=nick, reg=True)
         return cid
 
